@@ -177,7 +177,7 @@ func (e *Env) neutralityReductions(k3, k2 *scoreKit) {
 				if x.Op == ir.OCall && x.Obj != nil && x.Obj.Name() == "IsChanged" && len(x.Args) == 2 && x.Args[0].Key() == k3.fld(E, "MS").Key() {
 					return k3.pred(E, "S", "IsChanged")
 				}
-				if x.Op == ir.OCall && x.Obj == types.Object(k3.mathFn["Min"]) && len(x.Args) == 2 {
+				if ir.IsFMin(x) {
 					for i := 0; i < 2; i++ {
 						if f, ok := floatConst(x.Args[i]); ok && f == 0.915 {
 							return x.Args[1-i] // the cap never binds at requirement weight 1 (rule cap-never-binds)
